@@ -368,6 +368,16 @@ func c17Worker(args []string) int {
 				st, _ = influxql.ParseStatement(txt)
 				gc.Text = txt
 			}
+			if (round+k)%2 == 1 {
+				// built as a program builds it by hand: INTO targets without the
+				// flag the parser sets on them
+				influxql.WalkFunc(st, func(n influxql.Node) {
+					if s, ok := n.(*influxql.SelectStatement); ok && s.Target != nil && s.Target.Measurement != nil {
+						s.Target.Measurement.IsTarget = false
+						res.OpCounts["shared.hand-built-targets-without-flag"]++
+					}
+				})
+			}
 			sh := &c17shared{text: gc.Text, st: st}
 			tm := randomMapper(mon.NewRng(seed, "c17.mapper", round*64+k), append(refNames(st), "value", "host", "a", "b", "v", "w", "region"))
 			for _, n := range []string{"value", "a", "b", "v", "w"} {
@@ -631,6 +641,43 @@ func checkC17(c *Ctx) (string, bool, []string) {
 		return rule, false, assume
 	}
 	defer os.RemoveAll(tmp)
+	// First use: fresh processes (a binary that imports nothing but the
+	// library) whose first calls into it are made by 24 goroutines released
+	// together, under the race detector; each result is compared with the same
+	// call made alone afterwards.
+	if fb := os.Getenv("VFIRST_BIN"); fb == "" {
+		r.Inconclusive("VFIRST_BIN is not set (./check builds harness/cmd/vfirst with -race for C17)")
+		return rule, false, assume
+	} else {
+		nproc := c.N(12, 120)
+		for k := 0; k < nproc; k++ {
+			fc := exec.Command(fb, strconv.Itoa(k+int(c.Seed%7)))
+			fc.Env = append(os.Environ(), "GORACE=halt_on_error=0 history_size=2", "GOMAXPROCS=16")
+			outb, ferr := fc.CombinedOutput()
+			text := string(outb)
+			r.Eval(1)
+			switch {
+			case strings.Contains(text, "WARNING: DATA RACE"):
+				fr := raceFrameRe.FindAllStringSubmatch(text, -1)
+				var outer []string
+				for _, f := range fr {
+					if strings.Contains(f[1], "influxql") && len(outer) < 6 {
+						outer = append(outer, f[1])
+					}
+				}
+				r.Violation("data-race", map[string]interface{}{"why": "race detector report in a process whose first library calls are concurrent: " + strings.Join(outer, " <- "), "report": trunc(text, 6000)})
+			case strings.Contains(text, "MISMATCH"):
+				r.Violation("result-differs-from-call-made-alone", map[string]interface{}{"why": "first concurrent use: " + trunc(text[strings.Index(text, "MISMATCH"):], 600), "report": trunc(text, 6000)})
+			case ferr != nil || !strings.Contains(text, "FIRSTUSE calls="):
+				r.Violation("process-fatal-under-concurrency", map[string]interface{}{"why": fmt.Sprintf("first-use process died: %v", ferr), "stderr": trunc(text, 6000)})
+			default:
+				r.Count("first-use.processes-clean", 1)
+				continue
+			}
+			break
+		}
+		r.Count("first-use.processes", int64(nproc))
+	}
 	out := filepath.Join(tmp, "out.json")
 	cmd := exec.Command(bin, "--worker", "c17", strconv.FormatInt(c.Seed, 10), c.Tier, out)
 	cmd.Env = append(os.Environ(), "GORACE=halt_on_error=0 history_size=3 log_path="+filepath.Join(tmp, "race"))
